@@ -26,6 +26,7 @@ struct IWorld {
     virtual TreeView& view() = 0;               // rebuilt by buildTree() and rebuild()
     virtual void kernelObjects(std::vector<const void*>& out) = 0;
     virtual bool counters(std::vector<std::array<long, 7>>& perKernel, std::array<long, 7>& merged, uint64_t mergeSeed) = 0;
+    virtual bool topCounters(std::array<long, 7>& counts) = 0;   // counters of the periodic top-tree algorithm's kernel (false: none)
     virtual bool isTaskBased() const = 0;
     virtual long effectiveBlockSize() = 0;      // the block size the tree actually uses (the automatic estimate is made once, at construction)
     virtual long query(uint64_t seed) = 0;     // lookups through the tree's public find functions; returns the number of wrong answers
